@@ -1,8 +1,8 @@
 package props
 
 import (
-	"os"
 	"fmt"
+	"os"
 	"strconv"
 
 	"github.com/vicanso/pike/cache"
@@ -29,8 +29,8 @@ type keySys struct {
 	originAge string
 	lastObs   string
 	// store: "" none, "ttl" store that expires records itself, "lazy" store that hands back expired records
-	store string
-	st    *env.FaultStore
+	store   string
+	st      *env.FaultStore
 	memLost bool // after a restart a refetch is always acceptable instead of a hit
 }
 
